@@ -343,6 +343,35 @@ func propSetTimeRangeSeq(args []string) string {
 			return fmt.Sprintf("size: call %d on %q grows the condition beyond its size after the first call (%d > %d): %q", i+1, text, sz, firstSize, c.String())
 		}
 	}
+	// "every other predicate is kept", also when the statement is edited in place between two windows (a
+	// continuous query service rewrites conditions between runs): names and string values of the non-time
+	// predicates are changed inside the existing nodes, then the last window is set again; the result must be
+	// that of a twin holding a copy of the edited condition on which SetTimeRange was never called (round-3
+	// seeded change C18-3 kept the time-free condition in a memo keyed on the root node)
+	if stmt.Condition != nil {
+		influxql.WalkFunc(stmt.Condition, func(n influxql.Node) {
+			switch l := n.(type) {
+			case *influxql.StringLiteral:
+				if !l.IsTimeLiteral() {
+					l.Val += "_edited"
+				}
+			case *influxql.VarRef:
+				if !strings.EqualFold(l.Val, "time") {
+					l.Val += "_e"
+				}
+			}
+		})
+		twin := &influxql.SelectStatement{Condition: influxql.CloneExpr(stmt.Condition)}
+		w := ws[len(ws)-1]
+		start, end := time.Unix(0, w.start).UTC(), time.Unix(0, w.end).UTC()
+		e1, e2 := stmt.SetTimeRange(start, end), twin.SetTimeRange(start, end)
+		if (e1 == nil) != (e2 == nil) {
+			return fmt.Sprintf("%q edited in place after %d calls: SetTimeRange gives %v, on a fresh copy of the edited condition %v", text, len(ws), e1, e2)
+		}
+		if e1 == nil && stmt.Condition.String() != twin.Condition.String() {
+			return fmt.Sprintf("%q edited in place after %d calls: SetTimeRange gives %q, on a fresh copy of the edited condition %q", text, len(ws), stmt.Condition.String(), twin.Condition.String())
+		}
+	}
 	return ""
 }
 
